@@ -185,6 +185,13 @@ def r08_3(run):
         ok = bool(loops) and any(any(is_method_call(c, 'listen') and dotted(receiver(c)) == lp.target.id for c in ast.walk(lp)) for lp in loops)
         run.ob('R08.3', u, u.node, '%s attaches the listener to every existing object' % add, ok, slot='existing:%s' % add,
                message='%s does not listen() on the existing %s' % (add, index))
+        gu = cfg_of(u)
+        its = [n for n in gu.live if n.kind == 'iter' and any(n.ast is lp for lp in loops)]
+        skip = gu.reachable([gu.entry], avoid=lambda n: n in its, follow_exc=False)
+        run.ob('R08.3', u, u.node, '%s attaches to the existing objects on every path (also for an already registered listener)' % add,
+               bool(its) and not any(e in skip for e in gu.normal_exits()), slot='existing-always:%s' % add,
+               message='%s can return without attaching the listener to the existing %s (e.g. an early return for a listener that is already registered): '
+                       'a listener that was detached from one object and is added again never hears of it' % (add, index))
         ap = [c for c in calls_in(u) if dotted(c.func) == registry + '.append']
         run.ob('R08.3', u, u.node, '%s records the listener for future objects' % add, len(ap) == 1, slot='registry:%s' % add,
                message='%s does not append to %s' % (add, registry))
@@ -404,6 +411,7 @@ RULES = [
 from ..selftest import M  # noqa: E402
 FS, FT, FC = 'txtorcon/stream.py', 'txtorcon/torstate.py', 'txtorcon/circuit.py'
 MUTANTS = [
+    M('readd-returns-early', 'txtorcon/torstate.py', "        listen = ICircuitListener(icircuitlistener)\n        for circ in self.circuits.values():", "        listen = ICircuitListener(icircuitlistener)\n        if listen in self.circuit_listeners:\n            return\n        for circ in self.circuits.values():", ['R08.3']),
     M('terminal-first-sight-dropped', 'txtorcon/torstate.py', "        circ_id = int(args[0])\n\n        c = self._maybe_create_circuit(circ_id)", "        circ_id = int(args[0])\n        if circ_id not in self.circuits and args[1] in ('CLOSED', 'FAILED'):\n            return\n\n        c = self._maybe_create_circuit(circ_id)", ['R08.7']),
     M('state-after-notify', FC, "        self.state = args[1]\n\n        kw = find_keywords(args)\n        self.flags = kw\n", "        kw = find_keywords(args)\n        self.flags = kw\n", None),
     M('built-notified-twice', FC, "        if self.state == 'BUILT':\n            for x in self.listeners:\n                x.circuit_built(self)\n", "        if self.state == 'BUILT':\n            for x in self.listeners:\n                x.circuit_built(self)\n            for x in self.listeners:\n                x.circuit_built(self)\n", ['R08.1']),
@@ -426,6 +434,7 @@ MUTANTS = [
 ]
 MUTANTS = [m for m in MUTANTS if m.name != 'state-after-notify']
 TWINS = [
+    M('registry-dedup-only', 'txtorcon/torstate.py', "            circ.listen(listen)\n        self.circuit_listeners.append(listen)", "            circ.listen(listen)\n        if listen not in self.circuit_listeners:\n            self.circuit_listeners.append(listen)"),
     M('closed-failed-merged', FS, "        elif self.state == 'CLOSED':\n            if self.circuit:\n                self.circuit.streams.remove(self)\n            self.circuit = None\n            self.maybe_call_closing_deferred()\n            flags = self._create_flags(kw)\n            self._notify('stream_closed', self, **flags)\n\n        elif self.state == 'FAILED':\n            if self.circuit:\n                self.circuit.streams.remove(self)\n            self.circuit = None\n            self.maybe_call_closing_deferred()\n            # build lower-case version of all flags\n            flags = self._create_flags(kw)\n            self._notify('stream_failed', self, **flags)", "        elif self.state in ('CLOSED', 'FAILED'):\n            if self.circuit:\n                self.circuit.streams.remove(self)\n            self.circuit = None\n            self.maybe_call_closing_deferred()\n            flags = self._create_flags(kw)\n            if self.state == 'CLOSED':\n                self._notify('stream_closed', self, **flags)\n            else:\n                self._notify('stream_failed', self, **flags)"),
     M('closing-is-not-none', FS, "        if self._closing_deferred:\n            self._closing_deferred.callback(self)", "        if self._closing_deferred is not None:\n            self._closing_deferred.callback(self)"),
     M('named-lambda', FC, "        def close_command_is_queued(*args):\n            return self._closing_deferred\n        d = self._torstate", "        def queued(*args):\n            return self._closing_deferred\n        close_command_is_queued = queued\n        d = self._torstate"),
